@@ -192,6 +192,19 @@ fn main() {
         let a = burst(limit, Duration::from_nanos(dur_ns), n);
         emit_case("SAT", &format!("(SAT {} {} {} {})", limit, dur_ns, n, a));
     }
+    // FLOOD: more distinct keys than any table cap a maintainer might pick, then a fresh key bursts
+    for (limit, nkeys, attempts) in [(3usize, 70_000u64, 10usize), (1, 140_000, 4)] {
+        let rt = tokio::runtime::Builder::new_current_thread().enable_all().start_paused(true).build().unwrap();
+        let (crowd, adm) = rt.block_on(async {
+            let mut rl: RateLimiter<u64> = RateLimiter::new(Duration::from_secs(10), limit);
+            let mut crowd = 0u64;
+            for k in 0..nkeys { if rl.enqueue(k + 1_000) { crowd += 1; } }
+            let mut a = 0usize;
+            for _ in 0..attempts { if rl.enqueue(7) { a += 1; } }
+            (crowd, a)
+        });
+        emit_case("SAT", &format!("(FLOOD {} {} {} {} {} {})", limit, 10 * S, nkeys, crowd, attempts, adm));
+    }
     {
         let limit: usize = (1 << 24) + 2;
         let n = limit + 1000;
